@@ -571,6 +571,9 @@ func (c *Ctx) bvbin(op Op, a, b *Term) *Term {
 		if a == b {
 			return a
 		}
+		if r := c.orSegments(a, b); r != nil {
+			return r
+		}
 	case OBVXor:
 		if a.IsConst() {
 			a, b = b, a
@@ -1106,4 +1109,81 @@ func quoteName(n string) string {
 		}
 	}
 	return n
+}
+
+// ---------- segment view (byte (re)assembly through shifts and ors) ----------
+
+type seg struct {
+	t  *Term // nil => zero bits
+	w  int
+	hi int // when t != nil: the segment is extract(t, hi, hi-w+1)
+}
+
+// segments splits t (most significant first) into zero runs and slices of other terms.
+func (c *Ctx) segments(t *Term, out []seg, depth int) []seg {
+	if depth < 8 {
+		switch t.Op {
+		case OConcat:
+			out = c.segments(t.Args[0], out, depth+1)
+			return c.segments(t.Args[1], out, depth+1)
+		case OZext:
+			out = append(out, seg{nil, t.P1, 0})
+			return c.segments(t.Args[0], out, depth+1)
+		case OConst:
+			if t.Val.Sign() == 0 {
+				return append(out, seg{nil, t.Sort.W, 0})
+			}
+		case OExtract:
+			return append(out, seg{t.Args[0], t.Sort.W, t.P1})
+		}
+	}
+	return append(out, seg{t, t.Sort.W, t.Sort.W - 1})
+}
+
+// orSegments computes a|b when, bit range by bit range, at most one side is non-zero.
+func (c *Ctx) orSegments(a, b *Term) *Term {
+	if a.Op != OConcat && a.Op != OZext && b.Op != OConcat && b.Op != OZext {
+		return nil
+	}
+	sa := c.segments(a, nil, 0)
+	sb := c.segments(b, nil, 0)
+	var res *Term
+	i, j := 0, 0
+	for i < len(sa) && j < len(sb) {
+		x, y := &sa[i], &sb[j]
+		w := x.w
+		if y.w < w {
+			w = y.w
+		}
+		var piece *Term
+		switch {
+		case x.t == nil && y.t == nil:
+			piece = c.BVU(0, w)
+		case x.t == nil:
+			piece = c.Extract(y.t, y.hi, y.hi-w+1)
+		case y.t == nil:
+			piece = c.Extract(x.t, x.hi, x.hi-w+1)
+		default:
+			return nil
+		}
+		if res == nil {
+			res = piece
+		} else {
+			res = c.Concat(res, piece)
+		}
+		x.w -= w
+		x.hi -= w
+		y.w -= w
+		y.hi -= w
+		if x.w == 0 {
+			i++
+		}
+		if y.w == 0 {
+			j++
+		}
+	}
+	if i != len(sa) || j != len(sb) || res == nil {
+		return nil
+	}
+	return res
 }
